@@ -385,7 +385,10 @@ int main(int argc, char **argv)
         ABT_OK(ABT_eventual_create(e_nbytes, &E0));
         pE = ABTI_eventual_get_ptr(E0);
         vs_name_ex(pE, sizeof(ABTI_eventual), VS_SNAP, "E0");
-        vs_note("obj E0 nbytes=%d", e_nbytes);
+        {
+            char h0[40];
+            vs_note("obj E0 nbytes=%d v0=%s", e_nbytes, hexbuf(pE->value, e_nbytes, h0));
+        }
         if (nset < 1)
             nset = 1;
         nsetact = nset;
@@ -471,6 +474,7 @@ int main(int argc, char **argv)
             }
         }
     }
+    vs_note("apiCall free %s", isfut ? "F0" : "E0");
     if (isfut)
         ABT_OK(ABT_future_free(&F0));
     else
